@@ -1,5 +1,7 @@
 //! vcheck: runs the check of one property (default revm feature set).
 mod common;
+mod evmrun;
+mod txcheck;
 mod ops;
 mod pure;
 mod structs;
@@ -25,6 +27,7 @@ fn main() {
         std::process::exit(2);
     });
     match id.as_str() {
+        "C01" => txcheck::c01(&mut ctx),
         "C03" => ops::c03(&mut ctx),
         "C04" => ops::c04(&mut ctx),
         "C05" => ops::c05_opcodes(&mut ctx),
